@@ -105,15 +105,16 @@ class Net:
 
     @staticmethod
     def _drain(sock, buf):
+        """returns True when the sender has closed (end of stream)"""
         while True:
             try:
                 d = sock.recv(65536)
             except (BlockingIOError, InterruptedError):
-                return
+                return False
             except OSError:
-                return
+                return True
             if not d:
-                return
+                return True
             buf.extend(d)
 
     def move(self, direction, quota=None):
@@ -122,7 +123,8 @@ class Net:
         for l in getattr(self, "links", []):
             src, dst, buf = (l["cside"], l["sside"], l["c2s"]) if direction == "c2s" else (l["sside"], l["cside"], l["s2c"])
             before = len(buf)
-            self._drain(src, buf)
+            if self._drain(src, buf):
+                l["eof_" + direction] = True
             if direction == "s2c" and hasattr(self, "wiretap") and len(buf) > before:
                 self.wiretap(bytes(buf[before:]))
             n = len(buf) if quota is None or quota < 0 else min(quota, len(buf))
@@ -132,6 +134,13 @@ class Net:
                 except OSError:
                     pass
                 del buf[:n]
+            if l.get("eof_" + direction) and not buf and not l.get("closed_" + direction):
+                # the sender closed and everything it wrote has been passed on: the receiver sees the close
+                l["closed_" + direction] = True
+                try:
+                    dst.close()        # the receiver reads the end of the stream; what it sends from now on meets EPIPE
+                except OSError:
+                    pass
 
     def send(self, conn, data):
         if conn["open"] and data:
